@@ -139,6 +139,18 @@ class Rewriter:
             self.log.append(('R0b', '%s!(%s) -> obligation' % (name, ', '.join(args[:2]))))
             text = text[:mm.start()] + rep + text[end:]
 
+    # ---------------------------------------------------------------- R12
+    def format_macros(self, text):
+        """R12: `format!(..)` only ever builds error-message text here; it becomes an opaque String producer."""
+        while True:
+            m = mask(text)
+            mm = re.search(r'(?<![A-Za-z0-9_])format!\s*\(', m)
+            if not mm:
+                return text
+            c = match_close(m, mm.end() - 1)
+            self.log.append(('R12', 'format!(..) -> opaque_msg()'))
+            text = text[:mm.start()] + 'opaque_msg()' + text[c + 1:]
+
     # ---------------------------------------------------------------- loops
     @staticmethod
     def _loop_level_continues(body_text):
